@@ -628,6 +628,11 @@ func emitWm(c *Ctx, kind, usage string, ops []wmOp, obs []wmObs, fin int) {
 
 func runC34(c *Ctx) error {
 	c.Setup("Watermark CorrC34", "run_case")
+	// commit-window schedules right after every (re)initialisation of the oracle's timestamps
+	// (Load, re-open, DropAll, StreamWriter): oracle only (harness/window_reset.go)
+	if err := runWindowAfterReset(c); err != nil {
+		return err
+	}
 	nChild := 0
 	maxChild := 12 + c.N/40
 	for i := 0; c.nCases < c.N; i++ {
